@@ -282,6 +282,11 @@ of_status_t	of_rs_set_available_symbols    (of_rs_cb_t*	ofcb,
 		}
 		ofcb->nb_available_symbols++;
 	}
+	if (ofcb->nb_available_source_symbols == ofcb->nb_source_symbols)
+	{
+		/* we received all the k source symbols, so it's finished */
+		ofcb->decoding_finished = true;
+	}
 	OF_EXIT_FUNCTION
 	return OF_STATUS_OK;
 }
